@@ -55,16 +55,16 @@ pub fn run(t: &[&str]) -> String {
                 "jc" => each!(&mut vm, v => { let _ = v.set_jit_exec_memory(crate::exec_mem_shared()); res(v.jit_compile()) }),
                 #[cfg(not(harness_nostd))]
                 "cc" => each!(&mut vm, v => res(v.cranelift_compile())),
-                "x" => { let mut m: [u8; 0] = []; let mut b: [u8; 0] = [];
-                    let mr: &mut [u8] = unsafe { std::slice::from_raw_parts_mut(m.as_mut_ptr(), 0) }; let br: &mut [u8] = unsafe { std::slice::from_raw_parts_mut(b.as_mut_ptr(), 0) };
+                "x" => { let n: usize = f.get(1).and_then(|s| s.parse().ok()).unwrap_or(0); let mut m: Vec<u8> = vec![0x5a; n]; let mut b: [u8; 0] = [];
+                    let mr: &mut [u8] = unsafe { std::slice::from_raw_parts_mut(m.as_mut_ptr(), n) }; let br: &mut [u8] = unsafe { std::slice::from_raw_parts_mut(b.as_mut_ptr(), 0) };
                     match &mut vm { Vm::Mbuff(v) => val(v.execute_program(mr, br)), Vm::Raw(v) => val(v.execute_program(mr)), Vm::NoData(v) => val(v.execute_program()), Vm::Fixed(v) => val(v.execute_program(mr)) } }
                 #[cfg(harness_nostd)]
-                "xj" => { let mut m: [u8; 0] = []; let mut b: [u8; 0] = [];
-                    let mr: &mut [u8] = unsafe { std::slice::from_raw_parts_mut(m.as_mut_ptr(), 0) }; let br: &mut [u8] = unsafe { std::slice::from_raw_parts_mut(b.as_mut_ptr(), 0) };
+                "xj" => { let n: usize = f.get(1).and_then(|s| s.parse().ok()).unwrap_or(0); let mut m: Vec<u8> = vec![0x5a; n]; let mut b: [u8; 0] = [];
+                    let mr: &mut [u8] = unsafe { std::slice::from_raw_parts_mut(m.as_mut_ptr(), n) }; let br: &mut [u8] = unsafe { std::slice::from_raw_parts_mut(b.as_mut_ptr(), 0) };
                     unsafe { match &mut vm { Vm::Mbuff(v) => val(v.execute_program_jit(mr, br)), Vm::Raw(v) => val(v.execute_program_jit(mr)), Vm::NoData(v) => val(v.execute_program_jit()), Vm::Fixed(v) => val(v.execute_program_jit(mr)) } } }
                 #[cfg(not(harness_nostd))]
-                "xj" | "xc" => { let mut m: [u8; 0] = []; let mut b: [u8; 0] = [];
-                    let mr: &mut [u8] = unsafe { std::slice::from_raw_parts_mut(m.as_mut_ptr(), 0) }; let br: &mut [u8] = unsafe { std::slice::from_raw_parts_mut(b.as_mut_ptr(), 0) };
+                "xj" | "xc" => { let n: usize = f.get(1).and_then(|s| s.parse().ok()).unwrap_or(0); let mut m: Vec<u8> = vec![0x5a; n]; let mut b: [u8; 0] = [];
+                    let mr: &mut [u8] = unsafe { std::slice::from_raw_parts_mut(m.as_mut_ptr(), n) }; let br: &mut [u8] = unsafe { std::slice::from_raw_parts_mut(b.as_mut_ptr(), 0) };
                     let j = f[0] == "xj";
                     unsafe { match &mut vm {
                         Vm::Mbuff(v) => val(if j { v.execute_program_jit(mr, br) } else { v.execute_program_cranelift(mr, br) }),
@@ -131,9 +131,11 @@ pub fn gen(w: &mut impl Write, thorough: bool, seed: u64) {
                 6 => "sc".to_string(),
                 7 | 8 => "jc".to_string(),
                 9 => "cc".to_string(),
-                10..=12 => "x".to_string(),
-                13 | 14 => "xj".to_string(),
-                _ => "xc".to_string(),
+                // successive executions with different packets: empty (mostly), or 1..24 bytes — the fixed-metadata VM rewrites its data / data_end
+                // slots on every execution, an empty packet included (program 9 returns data_end - data)
+                10..=12 => if r.chance(1, 3) { format!("x:{}", 1 + r.below(24)) } else { "x".to_string() },
+                13 | 14 => if r.chance(1, 3) { format!("xj:{}", 1 + r.below(24)) } else { "xj".to_string() },
+                _ => if r.chance(1, 3) { format!("xc:{}", 1 + r.below(24)) } else { "xc".to_string() },
             };
             ops.push(op);
         }
